@@ -60,6 +60,8 @@ pub enum G {
     Word,
     Url,
     Rel,
+    /// a relationship field of debian/control: substitution variables allowed
+    RelCtl,
     Version,
     Prio,
     MArch,
@@ -117,7 +119,8 @@ pub struct Row {
 }
 
 fn jl(v: &[String]) -> String {
-    v.join("|")
+    // the count is part of the rendering: [""] and [] must not look alike
+    format!("{}:{}", v.len(), v.join("|"))
 }
 
 macro_rules! vt {
@@ -176,17 +179,18 @@ fn raw_id(r: &str) -> Option<String> {
     Some(r.to_string())
 }
 fn comma_list(r: &str) -> Option<String> {
-    Some(r.split(',').map(|s| s.trim().to_string()).collect::<Vec<_>>().join("|"))
+    // an empty field and a trailing comma hold no item
+    Some(jl(&r.split(',').map(|s| s.trim().to_string()).filter(|s| !s.is_empty()).collect::<Vec<_>>()))
 }
 fn ws_list(r: &str) -> Option<String> {
-    Some(r.split_whitespace().collect::<Vec<_>>().join("|"))
+    Some(jl(&r.split_whitespace().map(|s| s.to_string()).collect::<Vec<_>>()))
 }
 fn line_list(r: &str) -> Option<String> {
-    Some(r.split('\n').collect::<Vec<_>>().join("|"))
+    Some(jl(&r.split('\n').map(|s| s.to_string()).collect::<Vec<_>>()))
 }
 fn sums_list(r: &str) -> Option<String> {
     // checksum triples: one per line, fields separated by whitespace
-    Some(r.lines().map(|l| l.split_whitespace().collect::<Vec<_>>().join(" ")).collect::<Vec<_>>().join("|"))
+    Some(jl(&r.lines().map(|l| l.split_whitespace().collect::<Vec<_>>().join(" ")).collect::<Vec<_>>()))
 }
 fn yes_no(r: &str) -> Option<String> {
     Some((r == "yes").to_string())
@@ -219,12 +223,12 @@ macro_rules! ostr_row {
 }
 macro_rules! rel_ref_row {
     ($var:ident, $view:literal, $field:literal, $set:ident, $get:ident) => {
-        row!($var, $view, stringify!($set), $field, G::Rel, false, |v, a| v.$set(&a.s().parse::<Relations>().unwrap()), |v| v.$get().map(|x| x.to_string()), some_s, some_s, raw_id)
+        row!($var, $view, stringify!($set), $field, G::RelCtl, false, |v, a| v.$set(&Relations::parse_relaxed(a.s(), true).0), |v| v.$get().map(|x| x.to_string()), some_s, some_s, raw_id)
     };
 }
 macro_rules! rel_val_row {
     ($var:ident, $view:literal, $field:literal, $set:ident, $get:ident) => {
-        row!($var, $view, stringify!($set), $field, G::Rel, false, |v, a| v.$set(a.s().parse::<Relations>().unwrap()), |v| v.$get().map(|x| x.to_string()), some_s, some_s, raw_id)
+        row!($var, $view, stringify!($set), $field, G::Rel, false, |v, a| v.$set(Relations::parse_relaxed(a.s(), true).0), |v| v.$get().map(|x| x.to_string()), some_s, some_s, raw_id)
     };
 }
 macro_rules! orel_row {
@@ -234,11 +238,11 @@ macro_rules! orel_row {
             $view,
             stringify!($set),
             $field,
-            G::Rel,
+            G::RelCtl,
             true,
             |v, a| match a {
                 Arg::Clear => v.$set(None),
-                _ => v.$set(Some(&a.s().parse::<Relations>().unwrap())),
+                _ => v.$set(Some(&Relations::parse_relaxed(a.s(), true).0)),
             },
             |v| v.$get().map(|x| x.to_string()),
             some_or_clear,
@@ -257,7 +261,7 @@ macro_rules! sums_row {
             $gen,
             false,
             |v, a| v.$set(a.l().iter().map(|s| s.parse::<$ty>().unwrap()).collect()),
-            |v| Some(v.$get().iter().map(|x| x.to_string()).collect::<Vec<_>>().join("|")),
+            |v| Some(jl(&v.$get().iter().map(|x| x.to_string()).collect::<Vec<_>>())),
             |a| Some(jl(&a.l())),
             |a| Some(a.l().join("\n")),
             sums_list
@@ -319,7 +323,7 @@ pub fn rows() -> Vec<Row> {
         comma_list
     ));
     r.push(ostr_row!(CS, "control::Source", "Architecture", G::Word, set_architecture, architecture));
-    r.push(row!(CS, "control::Source", "set_rules_requires_root", "Rules-Requires-Root", G::Bool, false, |v, a| v.set_rules_requires_root(a.b()), |v| v.rules_requires_root().map(|x| x.to_string()), |a| Some(a.b().to_string()), |a| Some(if a.b() { "yes" } else { "no" }.to_string()), yes_no));
+    r.push(row!(CS, "control::Source", "set_rules_requires_root", "Rules-Requires-Root", G::Bool, false, |v, a| v.set_rules_requires_root(a.b()), |v| v.rules_requires_root().map(|x| x.to_string()), |a| Some(a.b().to_string()), |a| Some(if a.b() { "yes" } else { "no" }.to_string()), |r| Some((!r.eq_ignore_ascii_case("no")).to_string())));
     r.push(str_row!(CS, "control::Source", "Testsuite", G::Word, set_testsuite, testsuite));
     // ---- control::Binary
     r.push(str_row!(CB, "control::Binary", "Package", G::Word, set_name, name));
@@ -480,14 +484,15 @@ pub fn rows() -> Vec<Row> {
         AR,
         "apt::Release",
         "set_no_support_for_architecture_all",
-        "No-Support-For-Architecture-All",
+        // the name Release files use; its value names the index concerned ("Packages"), anything but "no" counts
+        "No-Support-for-Architecture-all",
         G::Bool,
         false,
         |v, a| v.set_no_support_for_architecture_all(a.b()),
         |v| Some(v.no_support_for_architecture_all().to_string()),
         |a| Some(a.b().to_string()),
         |a| Some(if a.b() { "yes" } else { "no" }.to_string()),
-        yes_no
+        |r| Some((r != "no").to_string())
     ));
     r.push(row!(AR, "apt::Release", "set_architectures", "Architectures", G::Words, false, |v, a| v.set_architectures(a.l()), |v| v.architectures().map(|x: Vec<String>| jl(&x)), |a| Some(jl(&a.l())), |a| Some(a.l().join(" ")), ws_list));
     r.push(row!(AR, "apt::Release", "set_components", "Components", G::Words, false, |v, a| v.set_components(a.l()), |v| v.components().map(|x: Vec<String>| jl(&x)), |a| Some(jl(&a.l())), |a| Some(a.l().join(" ")), ws_list));
@@ -552,7 +557,8 @@ pub fn rows() -> Vec<Row> {
         "copyright::Header",
         "set_files_excluded",
         "Files-Excluded",
-        G::Lines,
+        // a whitespace-separated list of patterns, like Files; the setter puts one per line
+        G::Words,
         false,
         |v, a| {
             let l = a.l();
@@ -562,7 +568,7 @@ pub fn rows() -> Vec<Row> {
         |v| v.files_excluded().map(|x: Vec<String>| jl(&x)),
         |a| Some(jl(&a.l())),
         |a| Some(a.l().join("\n")),
-        line_list
+        ws_list
     ));
     r.push(row!(
         CF,
@@ -1031,8 +1037,9 @@ fn gen_arg(rng: &mut Rng, g: G, seq: usize) -> Arg {
         G::Word => Arg::S(w(rng)),
         G::Url => Arg::S(format!("https://example.com/{}", w(rng))),
         G::Vcs => Arg::S(format!("https://example.com/{}.git{}", w(rng), rng.s(&["", " -b main", " [sub]", " -b debian/sid [x]"]))),
-        G::Rel => {
-            let f = grel::RelFlags { epochs: false, ..grel::RelFlags::canonical() };
+        G::Rel | G::RelCtl => {
+            // substitution variables are part of a control file's relationship syntax
+            let f = grel::RelFlags { epochs: false, substvars: g == G::RelCtl && rng.chance(1, 3), ..grel::RelFlags::canonical() };
             loop {
                 let s = grel::field(rng, &f);
                 if !s.is_empty() {
@@ -1047,7 +1054,7 @@ fn gen_arg(rng: &mut Rng, g: G, seq: usize) -> Arg {
         G::Num => Arg::N(rng.below(100000) + seq),
         G::Words => {
             // now and then a list long enough to pass any line-folding threshold
-            let n = if rng.chance(1, 8) { 10 + rng.below(15) } else { 1 + rng.below(3) };
+            let n = if rng.chance(1, 8) { 10 + rng.below(15) } else if rng.chance(1, 12) { 0 } else { 1 + rng.below(3) };
             Arg::L((0..n).map(|_| w(rng)).collect())
         }
         G::Lines => Arg::L((0..1 + rng.below(3)).map(|i| format!("l{seq}{i} {}", w(rng))).collect()),
@@ -1129,6 +1136,11 @@ impl Scenario for C15 {
                 paras.rotate_left(k);
                 text = paras.join("\n");
             }
+        }
+        if kind == "control" && rng.chance(1, 3) {
+            // Policy 5.6.31: besides "no", the field holds "binary-targets" or "<namespace>/<case>" keywords
+            let kw = rng.s(&["binary-targets", "dpkg/target-subcommand", "dpkg/target-subcommand other/keyword"]);
+            text = text.replace("Rules-Requires-Root: yes\n", &format!("Rules-Requires-Root: {kw}\n"));
         }
         // layout at the end of the file: a trailing comment line, no final newline
         if kind != "dep3" && !text.is_empty() {
@@ -1693,9 +1705,10 @@ impl Scenario for C15 {
                         let want = if let (Some(al), true) = (rowdef.alias, want.is_none()) {
                             l.model[para].iter().find(|e| e.0 == al).and_then(|e| (rowdef.decode)(&e.1))
                         } else if matches!(rowdef.gen, G::Md5s | G::Sha1s | G::Sha256s | G::Sha512s) && want.is_none() {
-                            Some(String::new())
+                            // these getters return a plain list: no field, no items
+                            Some(jl(&[]))
                         } else if rowdef.accessor == "set_copyright" && want.is_none() {
-                            Some(String::new())
+                            Some(jl(&[]))
                         } else {
                             want
                         };
